@@ -228,9 +228,17 @@ def _run_scripts(prop, tier, seed, rng, replay, problems, ev, cov, names, discha
         mo, me = core.run_driver(model_bin, fam.name, scripts, fam.timeout)
         io, ie = core.run_driver(impl_bin, fam.name, scripts, fam.timeout)
         for outs, b in ((mo, model_bin), (io, impl_bin)):
+            died = 0
             for k, o in enumerate(outs):
                 if o is None:
-                    o1, err = core.run_driver(b, fam.name, [scripts[k]], 120)
+                    if died >= 6:
+                        # a driver that hangs or dies on script after script (a change that deadlocks the code under
+                        # test): the first few are re-run alone to find the scripts at fault, the rest are not waited for
+                        outs[k] = ["<process-died>"]
+                        continue
+                    o1, err = core.run_driver(b, fam.name, [scripts[k]], 60)
+                    if o1[0] is None:
+                        died += 1
                     outs[k] = o1[0] if o1[0] is not None else ["<process-died>"]
         oo = run_oracle_bin(model_bin, fam, scripts, io)
         nfam = 0
